@@ -1588,6 +1588,126 @@ fn conc(seed: u64, count: u64, outdir: &str) {
     fs::write(format!("{outdir}/conc.impl"), imp).unwrap();
 }
 
+// ------------------------------------------------------------------------------------ soak
+
+/// Free-threaded soak: `readers` threads read V's slots (and its account) through the worker view
+/// while the committer cycles through change / destroy / re-create / empty-touch commits of V. Then
+/// the same commits are replayed on a fresh state with no reader: every slot answer must be equal.
+/// Returns (commits, reads, incoherent slots).
+fn soak_once(millis: u64, readers: usize, round: u64) -> (usize, u64, usize) {
+    use std::sync::atomic::{AtomicBool, AtomicU64, Ordering};
+    let v = addr(0xbad);
+    let mk_db = || {
+        let mut db = MemDb::default();
+        db.basic.insert(v, InfoT { bal: U256::from(9u8), nonce: 1, hash: 3, code: Some(1) }.real());
+        for k in 0..8u64 {
+            db.storage.insert((v, U256::from(k)), U256::from(k + 1));
+        }
+        db
+    };
+    let cop = |n: u64| -> EAcc {
+        let dflt = InfoT::default_info();
+        let mut e = EAcc { a: 0xbad, flags: 1, info: dflt.clone(), orig: dflt, slots: vec![] };
+        match (n + round) % 7 {
+            0 | 4 => {
+                e.info = InfoT { bal: U256::from(n % 50 + 1), nonce: 2, hash: 3, code: Some(1) };
+                e.slots = vec![(U256::from(n % 8), U256::from(1000u64), U256::from(n % 90 + 100))];
+            }
+            1 | 5 => e.flags = 1 | 4,
+            2 => {
+                e.flags = 1 | 2;
+                e.info = InfoT { bal: U256::from(3u8), nonce: 1, hash: 4, code: Some(2) };
+                e.slots = vec![(U256::from(1u8), U256::ZERO, U256::from(5u8)), (U256::from(2u8), U256::ZERO, U256::from(6u8))];
+            }
+            3 => e.info = InfoT { bal: U256::ZERO, nonce: 0, hash: 1, code: Some(0) },
+            _ => {
+                e.flags = 1 | 2;
+                e.info = InfoT { bal: U256::from(4u8), nonce: 1, hash: 3, code: Some(1) };
+            }
+        }
+        e
+    };
+    let mut st = ParallelState::new(mk_db(), true, false);
+    st.basic_ref(v).unwrap();
+    let stop = AtomicBool::new(false);
+    let reads = AtomicU64::new(0);
+    let mut log: Vec<EAcc> = Vec::new();
+    {
+        let (view, mut commit) = vc::split(&mut st);
+        std::thread::scope(|s| {
+            for r in 0..readers {
+                let view = view.clone();
+                let (stop, reads) = (&stop, &reads);
+                s.spawn(move || {
+                    let mut i = r as u64;
+                    while !stop.load(Ordering::Relaxed) {
+                        let _ = view.storage(v, U256::from(i % 8)).unwrap();
+                        if i % 16 == 0 {
+                            let _ = view.basic(v).unwrap();
+                        }
+                        i += 1;
+                    }
+                    reads.fetch_add(i, Ordering::Relaxed);
+                });
+            }
+            let t0 = std::time::Instant::now();
+            let mut n = 0u64;
+            while t0.elapsed().as_millis() < millis as u128 {
+                let e = cop(n);
+                commit.commit(evm_state(std::slice::from_ref(&e)));
+                log.push(e);
+                n += 1;
+                if n % 3 == 0 {
+                    std::thread::yield_now();
+                }
+            }
+            stop.store(true, Ordering::Relaxed);
+        });
+    }
+    let mut st2 = ParallelState::new(mk_db(), true, false);
+    st2.basic_ref(v).unwrap();
+    for e in &log {
+        st2.commit(evm_state(std::slice::from_ref(e)));
+    }
+    let mut bad = 0;
+    for k in 0..8u64 {
+        if st.storage_ref(v, U256::from(k)).unwrap() != st2.storage_ref(v, U256::from(k)).unwrap() {
+            bad += 1;
+        }
+    }
+    if info_tok(st.basic_ref(v).unwrap().as_ref()) != info_tok(st2.basic_ref(v).unwrap().as_ref()) {
+        bad += 100;
+    }
+    (log.len(), reads.load(std::sync::atomic::Ordering::Relaxed), bad)
+}
+
+fn soak(rounds: u64, millis: u64, readers: usize) -> i32 {
+    let (tx, rx) = std::sync::mpsc::channel();
+    std::thread::spawn(move || {
+        let mut tot = (0usize, 0u64, 0usize, 0u64);
+        for r in 0..rounds {
+            let (c, rd, bad) = soak_once(millis, readers, r);
+            tot.0 += c;
+            tot.1 += rd;
+            tot.2 += bad;
+            if bad > 0 {
+                tot.3 += 1;
+            }
+        }
+        let _ = tx.send(tot);
+    });
+    match rx.recv_timeout(std::time::Duration::from_millis(rounds * millis * 3 + 20_000)) {
+        Ok((c, rd, bad, rounds_bad)) => {
+            println!("SOAK rounds={rounds} commits={c} reads={rd} incoherent_slots={bad} rounds_incoherent={rounds_bad} deadlock=0");
+            if bad > 0 { 10 } else { 0 }
+        }
+        Err(_) => {
+            println!("SOAK deadlock=1 (no progress within the time box)");
+            3
+        }
+    }
+}
+
 // ------------------------------------------------------------------------------------ main
 
 fn main() {
@@ -1610,6 +1730,10 @@ fn main() {
             run_cases(&lines, &a[3]);
         }
         "conc" => conc(a[2].parse().unwrap(), a[3].parse().unwrap(), &a[4]),
+        "soak" => {
+            let rc = soak(a.get(2).map_or(20, |s| s.parse().unwrap()), a.get(3).map_or(100, |s| s.parse().unwrap()), a.get(4).map_or(4, |s| s.parse().unwrap()));
+            std::process::exit(rc);
+        }
         "f1" => {
             let rounds = a.get(2).map_or(3, |s| s.parse().unwrap());
             let rep = f1(rounds);
